@@ -184,6 +184,7 @@ class OracleMixin:
                 t.self_pending = False
                 t.pending = False
                 self.triggers.add("T.self_cancel_no_suspend")
+                self.triggers.add(f"T.self_cancel_no_suspend@{t.pool.idx}")
                 self.sit["self_cancel_no_suspend"] += 1
             if t.seen != t.owed:
                 self.violate("C06.deliveries", f"task {t.tid}: observed {t.seen} cancellations, owed {t.owed}")
@@ -270,8 +271,8 @@ class OracleMixin:
             want = "AlreadyCancelled" if st == "cancelled" else "AlreadyEnded"
             if got == want:
                 self.sit["C03.state_probe." + st] += 1
-                if t.forget == "maybe":
-                    t.forget = "kept_observed"
+                if t.forget == "maybe" and not pr.flushes:
+                    t.forget = "kept"  # no flush in flight: it was not forgotten and stays known
                 continue
             if got == "InvalidTaskID" and t.forget == "maybe":
                 t.forget = "forgotten"
@@ -324,7 +325,8 @@ class OracleMixin:
                 self.violate("C13.no_raise", f"flush(return_exceptions=True) raised {type(e).__name__}: {e}")
                 self.violate("C12.return_exceptions", f"flush(return_exceptions=True) raised {type(e).__name__}: {e}")
             elif not self.is_injected(e):
-                self.violate("C12.raised_identity", f"flush() raised {type(e).__name__}: {e!r}, which no task or callback raised")
+                kind = "CancelledError" if isinstance(e, CancelledError) else "other"
+                self.violate(f"C12.raised_identity.{kind}", f"flush() raised {type(e).__name__}: {e!r}, which no task or callback raised", pool=pr.idx)
             else:
                 self.sit["C12.flush_raised_injected"] += 1
             return
@@ -352,11 +354,12 @@ class OracleMixin:
             return
         if rex:
             self.violate("C12.return_exceptions", f"gather_and_close(return_exceptions=True) raised {type(e).__name__}: {e!r}")
+        kind = "CancelledError" if isinstance(e, CancelledError) else "other"
         if not self.excs:
-            self.violate("C08.returns_normally", f"gather_and_close raised {type(e).__name__}: {e!r} although no task or callback raised")
+            self.violate(f"C08.returns_normally.{kind}", f"gather_and_close raised {type(e).__name__}: {e!r} although no task or callback raised", pool=pr.idx)
         elif not self.is_injected(e):
-            self.violate("C12.raised_identity", f"gather_and_close raised {type(e).__name__}: {e!r}, which no task or callback raised")
-            self.violate("C08.returns_normally", f"gather_and_close raised {type(e).__name__}: {e!r}, which no task or callback raised")
+            self.violate(f"C12.raised_identity.{kind}", f"gather_and_close raised {type(e).__name__}: {e!r}, which no task or callback raised", pool=pr.idx)
+            self.violate(f"C08.returns_normally.{kind}", f"gather_and_close raised {type(e).__name__}: {e!r}, which no task or callback raised", pool=pr.idx)
 
     def on_gac_return(self, pr, before):
         if pr.L:
@@ -364,7 +367,7 @@ class OracleMixin:
         if pr.cb_in_progress:
             self.violate("C08.waits_all", f"gather_and_close returned while {pr.cb_in_progress} callbacks are still in progress")
         for rq in before:
-            if rq.meta is not None and not rq.meta.done():
+            if rq.cancelled_at is None and rq.meta is not None and not rq.meta.done():
                 self.violate("C08.waits_all", f"gather_and_close returned while the spawner of request {rq.idx} ({rq.kind}) is still working")
         o = pr.obj
         if o.num_running or o.num_cancelled or o.num_ended:
